@@ -677,7 +677,7 @@ pub mod channel {
 // ================================================================== core/mod.rs
 pub mod core_m {
     use super::*;
-    use super::channel::{collect_drain, Receiver};
+    use super::channel::{collect_drain, Receiver, Sender, SenderInner};
 
     // ---- X4: the model lock. write() while a guard exists would deadlock or panic: precondition.
     #[verifier::external_body]
@@ -743,6 +743,47 @@ pub mod core_m {
     }
 //@extract id=ResolveError file=crux_core/src/core/resolve.rs item="enum ResolveError"
 //@end
+
+    // ---- capability/mod.rs: the legacy capability context's two direct sends
+//@extract id=cap.ContextInner file=crux_core/src/capability/mod.rs item="struct ContextInner"
+//@contract
+    #[verifier::reject_recursive_types(Op)]
+    #[verifier::reject_recursive_types(Event)]
+//@rule X2.vis 1 s/^struct ContextInner/pub struct ContextInner/
+//@rule X2.vis * s/\n(\s+)(shell_channel|app_channel|spawner):/\n\1pub \2:/
+//@rule X11.module-path 1 s/executor::Spawner/Spawner/
+//@end
+//@extract id=cap.CapabilityContext file=crux_core/src/capability/mod.rs item="struct CapabilityContext"
+//@contract
+    #[verifier::reject_recursive_types(Op)]
+    #[verifier::reject_recursive_types(Event)]
+//@rule X2.vis 1 s/\binner:/pub inner:/
+//@end
+
+    impl<Op, Ev> CapabilityContext<Op, Ev>
+    where
+        Op: Operation,
+    {
+//@extract id=CapabilityContext::update_app file=crux_core/src/capability/mod.rs within="impl<Op, Ev> CapabilityContext<Op, Ev>" item="fn update_app" props=C03
+//@expect pub fn update_app(&self, event: Ev)
+//@sig pub fn update_app(&self, Tracked(w): Tracked<&mut World>, event: Ev)
+//@contract
+            requires
+                self.inner.app_channel.inner.accepts(event),
+            ensures
+                self.inner.app_channel.inner.effect(event, *old(w), *final(w)), // [C03/update_app/the-event-is-sent-exactly-once-on-the-capabilitys-app-channel]
+//@end
+
+//@extract id=CapabilityContext::send_request file=crux_core/src/capability/mod.rs within="impl<Op, Ev> CapabilityContext<Op, Ev>" item="fn send_request" props=C01
+//@expect pub(crate) fn send_request(&self, request: Request<Op>)
+//@sig pub fn send_request(&self, Tracked(w): Tracked<&mut World>, request: Request<Op>)
+//@contract
+            requires
+                self.inner.shell_channel.inner.accepts(request),
+            ensures
+                self.inner.shell_channel.inner.effect(request, *old(w), *final(w)), // [C01/send_request/the-request-is-sent-exactly-once-on-the-capabilitys-shell-channel]
+//@end
+    }
 
     /// The user's app. `update` is user code: it may use legacy capabilities (spawn tasks, send
     /// events) - HAVOC restricted to appends - and it is the one place an event is applied.
